@@ -269,7 +269,9 @@ def save_model(
                 *model._symbols(model.constants),
                 *model._symbols(model.parameters),
             ]
-            symbol_to_index = {x: i for i, x in enumerate(all_symbols)}
+            # Keyed by name: looking up an MX in a dict compares symbols with ==,
+            # which has no truth value for non-scalar symbols.
+            symbol_to_index = {x.name(): i for i, x in enumerate(all_symbols)}
 
             expressions, durations = zip(*model.delay_arguments)
 
@@ -278,7 +280,11 @@ def save_model(
                 if not isinstance(dur, ca.MX):
                     dur = ca.MX(dur)  # Probably a constant, will have no dependencies
                 duration_dependencies.append(
-                    [symbol_to_index[var] for var in ca.symvar(dur) if ca.depends_on(dur, var)]
+                    [
+                        symbol_to_index[var.name()]
+                        for var in ca.symvar(dur)
+                        if ca.depends_on(dur, var)
+                    ]
                 )
             db["__delay_duration_dependent"] = duration_dependencies
 
@@ -480,13 +486,15 @@ def load_model(model_folder: str, model_name: str, compiler_options: Dict[str, s
                     dur = delay_durations_simplified[i]
 
                     if len(duration_dependencies[i]) < len(actual_deps):
-                        deps = set(ca.symvar(dur))
-                        actual_deps = {all_symbols[j] for j in duration_dependencies[i]}
-                        false_deps = deps - actual_deps
+                        # Compare symbols by name: sets of MX compare their
+                        # members with ==, which has no truth value for
+                        # non-scalar symbols.
+                        true_deps = {all_symbols[j].name() for j in duration_dependencies[i]}
+                        false_deps = [s for s in ca.symvar(dur) if s.name() not in true_deps]
 
                         if false_deps:
                             [dur] = ca.substitute(
-                                [dur], list(false_deps), [np.nan] * len(false_deps)
+                                [dur], false_deps, [ca.MX(ca.DM.nan(*s.size())) for s in false_deps]
                             )
                     else:
                         # Already removed all false dependencies
